@@ -81,6 +81,7 @@ type ContractFile struct {
 	Axioms    []*Axiom
 	PureIface []string // patterns of interface methods that are pure abstract fields
 	Guards    []*GuardDecl
+	Immutable []*GuardDecl // "wiring Struct : F1, F2": fields assigned only while the object is being constructed
 }
 
 // GuardDecl: fields of a struct type that may only be accessed while a mutex field of the same object is held.
@@ -493,7 +494,7 @@ func (p *parser) parsePrimary() (Expr, error) {
 
 var clauseKW = map[string]bool{"requires": true, "ensures": true, "invariant": true, "assert": true, "let": true,
 	"modifies": true, "sets": true, "pure": true, "inline": true, "trusted": true, "bridge": true, "assume": true, "var": true, "params": true, "readonly": true}
-var blockKW = map[string]bool{"func": true, "interface": true, "spec": true, "ghost": true, "lemma": true, "axiom": true, "pureiface": true, "guards": true, "abstraction": true, "implements": true}
+var blockKW = map[string]bool{"func": true, "interface": true, "spec": true, "ghost": true, "lemma": true, "axiom": true, "pureiface": true, "guards": true, "wiring": true, "abstraction": true, "implements": true}
 
 var labelRe = regexp.MustCompile(`^\[(~?)(C[0-9]+\.[A-Za-z0-9_\-]+)\]\s*`)
 
@@ -577,6 +578,17 @@ func parseContractFile(path string) (*ContractFile, error) {
 				g.Fields = append(g.Fields, strings.TrimSpace(f))
 			}
 			cf.Guards = append(cf.Guards, g)
+		case "wiring":
+			// wiring Struct : F1, F2
+			parts := strings.SplitN(rest, ":", 2)
+			if len(parts) != 2 {
+				return nil, fail(ln.n, "wiring: expected 'Struct : F1, F2'")
+			}
+			g := &GuardDecl{Pos: pos, Struct: strings.TrimSpace(parts[0])}
+			for _, f := range strings.Split(parts[1], ",") {
+				g.Fields = append(g.Fields, strings.TrimSpace(f))
+			}
+			cf.Immutable = append(cf.Immutable, g)
 		case "ghost":
 			// ghost name : type
 			parts := strings.SplitN(rest, ":", 2)
